@@ -442,13 +442,12 @@ func (m *DynamicPushOnWriteHook) Execute(ctx context.Context, ds datas.Dataset, 
 			return nil, nil
 		}
 
-		m.remote = remoteName
-
-		destDb, err := getDestinationDb(ctx, m.dEnv, m.remote)
+		destDb, err := getDestinationDb(ctx, m.dEnv, remoteName)
 		if err != nil {
 			return nil, err
 		}
 
+		m.remote = remoteName
 		m.syncHook.destDb = destDb
 		m.asyncHook.destDb = destDb
 
